@@ -29,12 +29,16 @@ CONSTANTS CfgKeys, Vals, Bases, XVals, GVals, MenuIds, MaxExprs, MaxResults, Unr
 \* ---------------------------------------------------------------- value attributes
 \* bytewise (strings.Compare) rank of every value token that can occur in a row
 AlphaRank(v) ==
-  CASE v = "" -> 0 [] v = "*" -> 1 [] v = "1000" -> 2 [] v = "1k" -> 3 [] v = "4" -> 4 [] v = "9" -> 5
-    [] v = "N1" -> 6 [] v = "N2" -> 7 [] v = "NaN" -> 8 [] v = "s1" -> 9 [] v = "s2" -> 10 [] v = "x" -> 11
-    [] OTHER -> 12
-\* numeric reading of the 'num' order: <<class, value>>, class 0 = number, 1 = NaN, 2 = not a number
+  CASE v = "" -> 0 [] v = "*" -> 1 [] v = "1000" -> 2 [] v = "1Ki" -> 3 [] v = "1Y" -> 4 [] v = "1Yi" -> 5
+    [] v = "1Z" -> 6 [] v = "1Zi" -> 7 [] v = "1k" -> 8 [] v = "4" -> 9 [] v = "9" -> 10
+    [] v = "N1" -> 11 [] v = "N2" -> 12 [] v = "NaN" -> 13 [] v = "s1" -> 14 [] v = "s2" -> 15 [] v = "x" -> 16
+    [] OTHER -> 17
+\* numeric reading of the 'num' order: <<class, rank>>, class 0 = number, 1 = NaN, 2 = not a number;
+\* rank orders the numbers (equal rank = equal value): 4 < 9 < 1000 = 1k < 1Ki (1024) < 1Z (1e21)
+\* < 1Zi (2^70) < 1Y (1e24) < 1Yi (2^80).  SI and IEC suffixes up to the largest are covered.
 NumOf(v) ==
-  CASE v = "1000" -> <<0, 1000>> [] v = "1k" -> <<0, 1000>> [] v = "9" -> <<0, 9>> [] v = "4" -> <<0, 4>>
+  CASE v = "4" -> <<0, 1>> [] v = "9" -> <<0, 2>> [] v = "1000" -> <<0, 3>> [] v = "1k" -> <<0, 3>>
+    [] v = "1Ki" -> <<0, 4>> [] v = "1Z" -> <<0, 5>> [] v = "1Zi" -> <<0, 6>> [] v = "1Y" -> <<0, 7>> [] v = "1Yi" -> <<0, 8>>
     [] v = "NaN" -> <<1, 0>> [] OTHER -> <<2, 0>>
 
 \* ---------------------------------------------------------------- expressions
